@@ -12,6 +12,8 @@ def cases(tier, seed):
     n = 4000 if tier == 'quick' else 40000
     for i in range(n):
         yield {'kind': 'unify', 'A': S.random_spec(rng), 'B': S.random_spec(rng)}
+    for i in range(n // 2):
+        yield {'kind': 'unify-chain', 'A': S.random_spec(rng), 'B': S.random_spec(rng), 'C': S.random_spec(rng), 'D': S.random_spec(rng)}
     for g, origin in G.grammars(tier, seed, n_random=1200, exhaustive_prods=2):
         if g[1] and all(isinstance(s[1], str) for h, b in g[1] for s in (h,) + b):
             yield {'kind': 'plain', 'G': C.to_json(g)}
@@ -51,6 +53,28 @@ def check_unify(case):
             results.append('exc'); fails.append(fail('C18.unify:exception', f'{tag}: {type(ex).__name__}: {ex}'))
     if len(results) == 2 and results[0] != results[1] and not fails: fails.append(fail('C18.unify.order', f'{results[0]} vs {results[1]}'))
     return fails, ok and bool(dA['share'] or dB['share'] or len(dA['paths']) > 3), 1
+
+
+def check_chain(case):
+    """a.unify(b); a.unify(c); a.unify(d): every intermediate result is the glb of what was unified so far, a refused step leaves an error only"""
+    from pyformlang.fcfg.feature_structure import FeatureStructuresNotCompatibleException
+    specs = [spec_of(case[k]) for k in 'ABCD']; fails = []
+    x = S.build(specs[0]); cur = S.describe_spec(specs[0]); steps = 0
+    for k, sp in zip('BCD', specs[1:]):
+        try: nxt = S.unify_descriptions(cur, S.describe_spec(sp)); ok = True
+        except S.Conflict: ok = False
+        try:
+            x.unify(S.build(sp))
+            if not ok: fails.append(fail('C18.unify.accepts-conflict', f'step {k} of a chain succeeded: {json.dumps(case)[:300]}')); break
+        except FeatureStructuresNotCompatibleException:
+            if ok: fails.append(fail('C18.unify.refuses-compatible', f'step {k} of a chain raised: {json.dumps(case)[:300]}'))
+            break
+        except Exception as ex:
+            fails.append(fail('C18.unify:exception', f'step {k}: {type(ex).__name__}: {ex}')); break
+        cur = nxt; steps += 1
+        got = S.describe_object(x)
+        if got != S.canon(cur): fails.append(fail('C18.unify.glb', f'after step {k} of a chain: {got} expected {S.canon(cur)}')); break
+    return fails, steps >= 2, 1
 
 
 def build_fcfg(g, ann=None):
@@ -95,6 +119,7 @@ def instantiate(g, ann):
 
 def check(case):
     if case['kind'] == 'unify': return check_unify(case)
+    if case['kind'] == 'unify-chain': return check_chain(case)
     g = C.from_json(case['G']); fails = []; n = 3
     ts = sorted({t[1] for t in C.terminals(g)})
     W = [w for k in range(n + 1) for w in itertools.product(ts + ['#zz'], repeat=k)]
